@@ -1,6 +1,6 @@
 (* C01 — a target never starts before all of its dependencies are ready.
    Property theorems only; proofs are in Proofs/SysC01.v. *)
-From Zinoma.Proofs Require Import SysC01.
+From Zinoma.Proofs Require Import SysC01 ActorWords.
 
 (* For every reachable state of the system (any graph the resolver can output, any requested set, one-shot or watch
    mode, with or without the FX1 repair, any interleaving of deliveries, completions, failures, change notices and
@@ -20,6 +20,17 @@ Theorem C01_acknowledgements_justified :
   forall (fx watch : bool) (g : graph) (roots : list tid) (s : sys),
     reachable fx watch g roots s -> ready_inv g s.
 Proof. exact ready_inv_reachable. Qed.
+
+(* watch mode, "the latest word": take ANY sequence of events an actor has handled since it was launched (messages, change
+   notices, build results, with or without the FX1 repair — every interleaving of the system projects to such a sequence). If
+   the last step starts the target, then for every dependency and for both kinds the LATEST word received from that dependency
+   (Ok or out-of-date) is Ok: a target never starts while the latest word from a dependency is that it is out of date, nor
+   before any word came. *)
+Theorem C01_watch_latest_word :
+  forall (fx : bool) (t : tid) (kd : akind) (deps : list tid) (es : list (bool * event)) (a' : astate) (ob : list obs),
+    run_events fx (init_actor t kd deps) es = Some (a', ob) -> ObStart t ∈ ob ->
+    forall d k, d ∈ deps -> lastword es k d = Some true.
+Proof. exact start_needs_latest_ok. Qed.
 
 (* non-vacuity: a two-target project `b: [a]` reaches a state whose history is start a, success a, start b *)
 Example C01_nonvacuous :
